@@ -5,6 +5,7 @@ import z3
 from .core import *
 from .ops import *
 from . import ops
+from . import ops as ops_mod
 from .front import Repo, ModuleInfo, ClassInfo
 from .contract import Registry, Contract, SpecModule
 
@@ -122,6 +123,7 @@ class ExecBase:
         self.paths = 0
         self.warnings = []
         self._solver = None
+        self.inv_tags = {}
 
     # ------------------------------------------------------------ classes
     def class_id(self, qn):
@@ -264,6 +266,8 @@ class ExecBase:
     def feasible(self, st, extra=None):
         s = z3.Solver()
         s.set("timeout", self.feas_timeout)
+        for a in ops_mod.DEFAULT_AXIOMS:
+            s.add(a)
         for a in self.axioms:
             s.add(a)
         for p in st.pc:
